@@ -76,8 +76,9 @@ def canon_model(r):
 
 # ---------------------------------------------------------------- independent reference of the level fold (default order, by-name flags)
 def ref_fold(start, flags):
-    """start: vars dict (epoch/major/minor/patch/pre/post/dev); flags: dict name -> value (overrides: 'major': n ... ; bumps: 'bump_major': n ...)
-    returns the expected vars per the property text, or None when an addition overflows u64."""
+    """start: vars dict (epoch/major/minor/patch/pre/post/dev); flags: dict name -> value (overrides: 'major': n ... ; bumps: 'bump_major': n ...;
+    'core_ops' / 'extra_ops': {index: (override|None, bump|None)} addressing the FULL schema [major,minor,patch] / [epoch,pre_num,post,dev]).
+    Returns the expected vars per the property text, or None when an addition overflows u64."""
     v = dict(start)
     order = LEVELS
 
@@ -92,15 +93,39 @@ def ref_fold(start, flags):
                     v["pre"] = (v["pre"][0], 0)
             else:
                 v[l] = None
-    for l in order:
+
+    def field(l, ov, bump):
         if l in ("epoch", "major", "minor", "patch", "post", "dev"):
-            if flags.get(l) is not None:
-                v[l] = flags[l]
-            if flags.get("bump_" + l) is not None:
-                v[l] = (v[l] or 0) + flags["bump_" + l]
+            if ov is not None:
+                v[l] = ov
+            if bump is not None:
+                v[l] = (v[l] or 0) + bump
                 if v[l] >= 2 ** 64:
-                    return None
+                    return False
                 reset_after(l)
+        elif l == "pre_num":
+            if ov is not None:
+                v["pre"] = ((v["pre"][0] if v["pre"] else "a"), ov)
+            if bump is not None:
+                if v["pre"] is not None:
+                    v["pre"] = (v["pre"][0], (v["pre"][1] or 0) + bump)
+                    if v["pre"][1] >= 2 ** 64:
+                        return False
+                else:
+                    v["pre"] = ("a", bump)
+                reset_after("pre_num")
+        return True
+
+    full = ["epoch", "major", "minor", "patch", "CORE", "pre_label", "pre_num", "post", "dev", "EXTRA"]
+    for l in full:
+        if l == "CORE":
+            for i in sorted(flags.get("core_ops", {})):
+                if not field(["major", "minor", "patch"][i], *flags["core_ops"][i]):
+                    return None
+        elif l == "EXTRA":
+            for i in sorted(flags.get("extra_ops", {})):
+                if not field(["epoch", "pre_num", "post", "dev"][i], *flags["extra_ops"][i]):
+                    return None
         elif l == "pre_label":
             if flags.get("pre_label") is not None:
                 num = flags.get("pre_num")
@@ -110,17 +135,9 @@ def ref_fold(start, flags):
             if flags.get("bump_pre_label") is not None:
                 reset_after("pre_label")
                 v["pre"] = (flags["bump_pre_label"], 0)
-        elif l == "pre_num":
-            if flags.get("pre_num") is not None:
-                v["pre"] = ((v["pre"][0] if v["pre"] else "a"), flags["pre_num"])
-            if flags.get("bump_pre_num") is not None:
-                if v["pre"] is not None:
-                    v["pre"] = (v["pre"][0], (v["pre"][1] or 0) + flags["bump_pre_num"])
-                    if v["pre"][1] >= 2 ** 64:
-                        return None
-                else:
-                    v["pre"] = ("a", flags["bump_pre_num"])
-                reset_after("pre_num")
+        else:
+            if not field(l, flags.get(l), flags.get("bump_" + l)):
+                return None
     if v.get("epoch") == 0:
         v["epoch"] = None
     return v
@@ -132,7 +149,7 @@ LAB = {"a": "alpha", "b": "beta", "rc": "rc"}
 def flags_to_argv(flags, rng):
     argv = []
     for k, val in flags.items():
-        if val is None:
+        if val is None or k in ("core_ops", "extra_ops"):
             continue
         name = "--" + k.replace("_", "-").replace("pre-label", "pre-release-label").replace("pre-num", "pre-release-num")
         if k in ("pre_label", "bump_pre_label"):
@@ -213,6 +230,21 @@ def run_check(tier, seed):
         vars_ = dict(sv, custom={})
         stdin = zgen.enc_zerv(FULL, vars_)
         argv = ["--source=stdin", "--output-format=zerv"] + flags_to_argv(fl, rng)
+        # index-addressed operations on the same object, in every spelling
+        for sec, flag, L in (("core_ops", "core", 3), ("extra_ops", "extra-core", 4)):
+            if rng.random() < 0.45:
+                ops = {}
+                for i in rng.sample(range(L), rng.randint(1, L)):
+                    ov = rand_amount(rng) if rng.random() < 0.5 else None
+                    bump = (rand_amount(rng) if rng.random() < 0.6 else 1) if (rng.random() < 0.6 or ov is None) else None
+                    ops[i] = (ov, bump)
+                    sp = lambda: rng.choice([str(i), str(i - L), "~" + str(L - i)])
+                    if ov is not None:
+                        argv.append(f"--{flag}={sp()}={ov}")
+                    if bump is not None:
+                        argv.append(f"--bump-{flag}={sp()}" + ("" if bump == 1 and rng.random() < 0.5 else f"={bump}"))
+                fl[sec] = ops
+        rng.shuffle(argv)
         cases.append(ver("zerv", stdin, argv))
         exp.append((sv, fl))
     res = correspond(run, "named_flags_default_order_stdin_start", cases, **kw)
@@ -313,6 +345,26 @@ def run_check(tier, seed):
         if len(outs) != 1:
             run.add_violation("oracle", {"stream": "index_spellings_equal_by_name", "what": "i, i-len, ~(len-i) and the by-name flag do not agree",
                                          "requests": [describe(res[i][0])["argv"] for i in g], "impl_replies": [res[i][1][:400] for i in g]}, True)
+
+    # 4b. the same position addressed twice (in any two spellings) in one list must be rejected without output
+    cases = []
+    for _ in range(n // 4):
+        sv = dict(rand_start_vars(rng), custom={})
+        sec, flag, L = rng.choice([("core", "core", 3), ("extra", "extra-core", 4)])
+        i = rng.randrange(L)
+        sp = [str(i), str(i - L), "~" + str(L - i), "0" + str(i), "+" + str(i)]
+        a, b = rng.sample(sp, 2) if rng.random() < 0.8 else (sp[0], sp[0])
+        if rng.random() < 0.5:
+            args = [f"--{flag}={a}={rand_amount(rng)}", f"--{flag}={b}={rand_amount(rng)}"]
+        else:
+            a, b = [x for x in (a, b)]
+            args = [f"--bump-{flag}={a}" if not a.startswith(("0", "+")) or len(a) == 1 else f"--bump-{flag}={i}", f"--bump-{flag}={b}=2" if not b.startswith(("0", "+")) or len(b) == 1 else f"--bump-{flag}={i - L}=2"]
+        cases.append(ver("zerv", zgen.enc_zerv(FULL, sv), ["--source=stdin", "--output-format=zerv"] + args))
+    res = correspond(run, "duplicate_index_any_spelling_rejected", cases, **kw)
+    for c, r, m, v in res:
+        if r != "ERR":
+            run.add_violation("oracle", {"stream": "duplicate_index_any_spelling_rejected", "request": c, "described": describe(c), "impl_reply": r[:300],
+                                         "oracle": "a duplicate index must be rejected without output"}, True)
 
     # 5. custom precedence orders from stdin, --schema presets, --schema-ron, --clean / --no-bump-context / --custom
     cases = []
